@@ -128,11 +128,6 @@ impl DebugSession {
         }
     }
 
-    fn next_seq(&mut self) -> i64 {
-        self.server_seq
-            .fetch_add(1, std::sync::atomic::Ordering::Relaxed)
-    }
-
     fn next_progress_id(&mut self) -> String {
         let id = self.next_progress_id;
         self.next_progress_id = self.next_progress_id.saturating_add(1);
@@ -455,8 +450,13 @@ impl DebugSession {
         message: Option<String>,
         body: Option<Value>,
     ) -> anyhow::Result<()> {
+        // the sequence number must be taken under the transport lock, otherwise a message
+        // of an output forwarder thread with a greater number may be written first
+        let mut lock = self.io.lock().unwrap();
         let rsp = DapResponse {
-            seq: self.next_seq(),
+            seq: self
+                .server_seq
+                .fetch_add(1, std::sync::atomic::Ordering::Relaxed),
             r#type: "response",
             request_seq: req.seq,
             success,
@@ -466,7 +466,6 @@ impl DebugSession {
         };
         let value = serde_json::to_value(rsp)?;
 
-        let mut lock = self.io.lock().unwrap();
         lock.write_message(&value)
     }
 
@@ -480,8 +479,10 @@ impl DebugSession {
     }
 
     fn send_event_raw(&mut self, name: &'static str, body: Option<Value>) -> anyhow::Result<()> {
-        let seq = self.next_seq();
         let mut lock = self.io.lock().unwrap();
+        let seq = self
+            .server_seq
+            .fetch_add(1, std::sync::atomic::Ordering::Relaxed);
 
         protocol::send_event(seq, &mut *lock, name, body)
     }
@@ -543,10 +544,9 @@ impl DebugSession {
                 match reader.read_line(&mut buf) {
                     Ok(0) => break,
                     Ok(_) => {
-                        let s = seq.fetch_add(1, std::sync::atomic::Ordering::Relaxed);
-
                         {
                             let mut lock = io.lock().unwrap();
+                            let s = seq.fetch_add(1, std::sync::atomic::Ordering::Relaxed);
                             // TODO log it somehow
                             _ = protocol::send_event(
                                 s,
@@ -572,10 +572,9 @@ impl DebugSession {
                 match reader.read_line(&mut buf) {
                     Ok(0) => break,
                     Ok(_) => {
-                        let s = seq.fetch_add(1, std::sync::atomic::Ordering::Relaxed);
-
                         {
                             let mut lock = io.lock().unwrap();
+                            let s = seq.fetch_add(1, std::sync::atomic::Ordering::Relaxed);
                             // TODO log it somehow
                             _ = protocol::send_event(
                                 s,
